@@ -26,7 +26,7 @@ RULE = ("crash-point enumeration: a fault-free run of each scenario counts its N
 ASSUMPTIONS = ["user cleanup (source aclose, lock release) does not itself suspend",
                "an async-generator source cancelled inside its own await dies with the cancellation (language semantics)"]
 EXHAUSTIVE = {"quick": False, "thorough": False}
-N_SPECS = {"quick": 1600, "thorough": 30000}
+N_SPECS = {"quick": 6000, "thorough": 300000}
 
 
 def cases(tier, seed, shard, nshards):
